@@ -514,3 +514,182 @@ Proof.
     unfold same_node in C. rewrite Nat.eqb_refl in C. discriminate.
   - exists c. split; [|reflexivity]. unfold export. apply in_or_app. right. now apply desc_p_child_below in Hpc.
 Qed.
+
+(* -------------------------------------------------------------- Mermaid *)
+Lemma klookup_none k m : klookup k m = None <-> kmem k (map fst m) = false.
+Proof.
+  induction m as [|[k' i] m IH]; cbn [klookup map fst kmem existsb]; [tauto|].
+  fold (kmem k (map fst m)). destruct (gkey_eqb k k'); cbn [orb]; [split; discriminate|exact IH].
+Qed.
+
+Lemma kmem_snoc x l k : kmem x (l ++ [k]) = kmem x (k :: l).
+Proof.
+  unfold kmem. rewrite existsb_app. cbn [existsb]. rewrite orb_false_r. apply orb_comm.
+Qed.
+
+Lemma mer_loop_spec u : forall ns m idx,
+  fst (mer_loop u ns m idx)
+    = map (fun p => (snd p, rname (fst p), false))
+          (combine (firsts u (map fst m) ns) (seq idx (length (firsts u (map fst m) ns)))) /\
+  snd (mer_loop u ns m idx)
+    = m ++ combine (map (key u) (firsts u (map fst m) ns)) (seq idx (length (firsts u (map fst m) ns))).
+Proof.
+  induction ns as [|n r IH]; intros m idx.
+  - cbn. now rewrite app_nil_r.
+  - cbn [mer_loop firsts]. destruct (klookup (key u n) m) as [j|] eqn:Lk.
+    + assert (M : kmem (key u n) (map fst m) = true).
+      { destruct (kmem (key u n) (map fst m)) eqn:M; [reflexivity|]. apply klookup_none in M. congruence. }
+      rewrite M. apply IH.
+    + pose proof Lk as M. apply klookup_none in M. rewrite M.
+      destruct (IH (m ++ [(key u n, idx)]) (S idx)) as [I1 I2].
+      assert (E : firsts u (map fst (m ++ [(key u n, idx)])) r = firsts u (key u n :: map fst m) r).
+      { apply firsts_ext. intros x. rewrite map_app. cbn [map fst]. apply kmem_snoc. }
+      rewrite E in I1, I2. cbn [fst snd]. rewrite I1, I2. cbn [length seq combine map fst snd].
+      split; [reflexivity|]. now rewrite <- app_assoc.
+Qed.
+
+Definition moff (a : bool) : nat := if a then 0 else 1.
+
+(* the nodes that get a Mermaid node line, in order *)
+Definition mer_firsts (u a : bool) (s : rt) : list rt := firsts u [] (export a s).
+
+Lemma mer_firsts_keys u a s : map (key u) (mer_firsts u a s) = first_occ (map (key u) (export a s)).
+Proof. unfold mer_firsts. rewrite firsts_keys. apply dedup_first_occ. Qed.
+
+Lemma mer_map_firsts u a s :
+  mer_map u a s = combine (map (key u) (mer_firsts u a s)) (seq (moff a) (length (mer_firsts u a s))).
+Proof.
+  unfold mer_map, mer_firsts. rewrite desc_p_snd.
+  destruct a; cbn [export app moff].
+  - destruct (mer_loop_spec u (pre_f (rch s)) [(key u s, 0)] 1) as [_ I2]. rewrite I2.
+    cbn [firsts kmem existsb map fst length seq combine app]. reflexivity.
+  - destruct (mer_loop_spec u (pre_f (rch s)) [] 1) as [_ I2]. rewrite I2. reflexivity.
+Qed.
+
+Lemma mer_nodes_firsts u a s :
+  mer_nodes u a s = map (fun p => (snd p, rname (fst p), Nat.eqb (snd p) 0))
+                        (combine (mer_firsts u a s) (seq (moff a) (length (mer_firsts u a s)))).
+Proof.
+  unfold mer_nodes, mer_firsts. rewrite desc_p_snd.
+  assert (G : forall (F : list rt) k, map (fun p : rt * nat => (snd p, rname (fst p), false)) (combine F (seq (S k) (length F)))
+                         = map (fun p => (snd p, rname (fst p), Nat.eqb (snd p) 0)) (combine F (seq (S k) (length F)))).
+  { intros F k. apply map_ext_in. intros [n i] Hi. apply in_combine_r in Hi. apply in_seq in Hi. cbn [fst snd].
+    destruct i; [lia|reflexivity]. }
+  destruct a; cbn [export app moff].
+  - destruct (mer_loop_spec u (pre_f (rch s)) [(key u s, 0)] 1) as [I1 _]. rewrite I1.
+    cbn [firsts kmem existsb map fst length seq combine app snd Nat.eqb]. f_equal. apply G.
+  - destruct (mer_loop_spec u (pre_f (rch s)) [] 1) as [I1 _]. rewrite I1. cbn [app map]. apply G.
+Qed.
+
+Lemma map_fst_combine_seq {X} (K : list X) : forall o, map fst (combine K (seq o (length K))) = K.
+Proof. induction K as [|k K IH]; intros o; cbn; [reflexivity|]. now rewrite IH. Qed.
+
+Lemma map_snd_combine_seq {X} (K : list X) : forall o, map snd (combine K (seq o (length K))) = seq o (length K).
+Proof. induction K as [|k K IH]; intros o; cbn; [reflexivity|]. now rewrite IH. Qed.
+
+(* id_to_idx: distinct keys in first-occurrence order, numbered consecutively *)
+Lemma mer_map_keys u a s : map fst (mer_map u a s) = first_occ (map (key u) (export a s)).
+Proof.
+  rewrite mer_map_firsts. rewrite <- (map_length (key u)). rewrite map_fst_combine_seq. apply mer_firsts_keys.
+Qed.
+
+Lemma mer_map_indices u a s :
+  map snd (mer_map u a s) = seq (moff a) (length (first_occ (map (key u) (export a s)))).
+Proof.
+  rewrite mer_map_firsts. rewrite <- mer_firsts_keys, <- (map_length (key u)). apply map_snd_combine_seq.
+Qed.
+
+Lemma mer_nodes_indices u a s :
+  map (fun d : mnode => fst (fst d)) (mer_nodes u a s) = seq (moff a) (length (first_occ (map (key u) (export a s)))).
+Proof.
+  rewrite mer_nodes_firsts, map_map. cbn [fst].
+  change (fun x : rt * nat => snd x) with (@snd rt nat).
+  rewrite map_snd_combine_seq. now rewrite <- mer_firsts_keys, map_length.
+Qed.
+
+Lemma in_combine_map {X Y Z} (f : X -> Y) (l : list X) : forall (r : list Z) x z,
+  In (x, z) (combine l r) -> In (f x, z) (combine (map f l) r).
+Proof.
+  induction l as [|a l IH]; intros [|b r] x z; cbn; try tauto.
+  intros [E|H]; [left; injection E as -> ->; reflexivity|right; now apply IH].
+Qed.
+
+(* every node line: index i is the number given to the key of some exported node
+   n, n is the first exported node with that key, the line shows n's name; the
+   hexagon shape is used for index 0 only *)
+Lemma mer_nodes_lines u a s i nm r : In (i, nm, r) (mer_nodes u a s) ->
+  exists n, In (key u n, i) (mer_map u a s) /\ find (has_key u (key u n)) (export a s) = Some n /\
+            nm = rname n /\ r = Nat.eqb i 0.
+Proof.
+  rewrite mer_nodes_firsts, mer_map_firsts. intros H. apply in_map_iff in H. destruct H as [[n j] [E H]].
+  cbn [fst snd] in E. injection E as <- <- <-. exists n.
+  split; [now apply in_combine_map|]. split; [|split; reflexivity].
+  apply in_combine_l in H. unfold mer_firsts in H. now apply firsts_find in H.
+Qed.
+
+(* decoding an index through the node table *)
+Definition kinv (m : list (gkey * nat)) (i : nat) : option gkey :=
+  option_map fst (find (fun p => Nat.eqb (snd p) i) m).
+
+Definition obind {X Y} (o : option X) (f : X -> option Y) : option Y :=
+  match o with Some x => f x | None => None end.
+
+Definition mer_decode (m : list (gkey * nat)) (e : medge) : option gkey * option gkey * option text :=
+  match e with (oi, oj, l) => (obind oi (kinv m), obind oj (kinv m), l) end.
+
+Lemma klookup_in : forall m k i, NoDup (map fst m) -> In (k, i) m -> klookup k m = Some i.
+Proof.
+  induction m as [|[k' j] m IH]; intros k i H Hi; [contradiction|].
+  cbn [map fst] in H. inversion H as [|? ? Hn Hm]; subst. cbn [klookup].
+  destruct Hi as [E|Hi].
+  - injection E as -> ->. now rewrite gkey_eqb_refl.
+  - destruct (gkey_eqb k k') eqn:E; [|now apply IH].
+    apply gkey_eqb_eq in E. subst k'. exfalso. apply Hn. apply (in_map fst) in Hi. exact Hi.
+Qed.
+
+Lemma kinv_in : forall m k i, NoDup (map snd m) -> In (k, i) m -> kinv m i = Some k.
+Proof.
+  unfold kinv. induction m as [|[k' j] m IH]; intros k i H Hi; [contradiction|].
+  cbn [map snd] in H. inversion H as [|? ? Hn Hm]; subst. cbn [find snd].
+  destruct Hi as [E|Hi].
+  - injection E as -> ->. now rewrite Nat.eqb_refl.
+  - destruct (Nat.eqb j i) eqn:E; [|now apply IH].
+    apply Nat.eqb_eq in E. subst j. exfalso. apply Hn. apply (in_map snd) in Hi. exact Hi.
+Qed.
+
+Lemma mer_map_roundtrip u a s n : In n (export a s) ->
+  exists i, klookup (key u n) (mer_map u a s) = Some i /\ kinv (mer_map u a s) i = Some (key u n).
+Proof.
+  intros Hn.
+  assert (Hk : In (key u n) (map fst (mer_map u a s))).
+  { rewrite mer_map_keys, first_occ_In. now apply in_map. }
+  apply in_map_iff in Hk. destruct Hk as [[k i] [E Hi]]. cbn [fst] in E. subst k.
+  exists i. split.
+  - apply klookup_in; [rewrite mer_map_keys; apply first_occ_NoDup|exact Hi].
+  - apply kinv_in; [rewrite mer_map_indices; apply seq_NoDup|exact Hi].
+Qed.
+
+(* no lookup fails, and every Mermaid edge line, decoded through the node
+   table, is the DOT edge of the same tree node *)
+Lemma mer_edges_decode u a s :
+  map (mer_decode (mer_map u a s)) (mer_edges u a s)
+  = map (fun e : dedge => (Some (fst (fst e)), Some (snd (fst e)), mer_label (snd e))) (dot_edges u a s).
+Proof.
+  unfold mer_edges, dot_edges. rewrite !map_flat_map'. apply flat_map_ext_in. intros [p c] Hpc. cbn [fst].
+  destruct (negb a && same_node p s) eqn:C; [reflexivity|]. cbn [map]. f_equal.
+  unfold mer_edge, dot_edge, mer_decode. cbn [fst snd].
+  assert (Hp : In p (export a s)).
+  { apply desc_p_parent_in_pre in Hpc. destruct a; [now rewrite export_true|]. cbn [negb andb] in C. cbn [export app].
+    rewrite pre_unfold in Hpc. destruct Hpc as [<-|Hp]; [|exact Hp].
+    unfold same_node in C. rewrite Nat.eqb_refl in C. discriminate. }
+  assert (Hc : In c (export a s)).
+  { unfold export. apply in_or_app. right. now apply desc_p_child_below in Hpc. }
+  destruct (mer_map_roundtrip u a s p Hp) as [i [L1 K1]].
+  destruct (mer_map_roundtrip u a s c Hc) as [j [L2 K2]].
+  rewrite L1, L2. cbn [obind]. now rewrite K1, K2.
+Qed.
+
+Lemma mer_edges_length u a s : length (mer_edges u a s) = length (dot_edges u a s).
+Proof.
+  pose proof (f_equal (@length _) (mer_edges_decode u a s)) as E. now rewrite !map_length in E.
+Qed.
